@@ -244,8 +244,100 @@ def start_vs_upstream_completion(v0: int, join: int) -> bool:
             w.close()
 
 
+class _VfBuilder:
+    """Stage definition builder whose tasks are created at plan time (tasks=[] in the definition)."""
+
+
+def _register_builder() -> None:
+    from stabilize.stages.builder import StageDefinitionBuilder, get_default_factory
+
+    class VfBuilt(StageDefinitionBuilder):
+        @property
+        def type(self) -> str:
+            return "vf_built"
+
+        def build_tasks(self, stage):
+            return [TaskExecution.create(name="built", implementing_class="x", stage_start=True, stage_end=True)]
+
+    get_default_factory().register(VfBuilt())
+
+
+def _nested_any(join_k, v0, k, other: int, built: bool, name: str, prop: str = "C04") -> bool:
+    """A = StartStage(j); worker B's whole handler runs before A's k-th statement (k symbolic: every
+    statement position outside an open write transaction).  other: 0 duplicate StartStage(j),
+    1 persistent SignalStage(j).  built: j's tasks are created at plan time by a builder."""
+    from harness.s2util import nest_at
+
+    with hx.Path(name) as P:
+        join = [JoinType.AND, JoinType.DISCRIMINATOR, JoinType.N_OF_M][hx.pick(join_k, 3)]
+        w, wf, j, u1 = _join_world(join, v0, threshold=1)
+        try:
+            if built:
+                _register_builder()
+                with hx.native():
+                    w.db.tables["task_executions"][:] = [r for r in w.db.tables["task_executions"] if r["stage_id"] != j.id]
+                    for r in w.db.tables["stage_executions"]:
+                        if r["id"] == j.id:
+                            r["type"] = "vf_built"
+            sb, qb = _worker_b(w)
+
+            def run_b() -> None:
+                if other == 0:
+                    m = StartStage(execution_id=wf.id, stage_id=j.id, created_at=_CREATED)
+                    m.message_id = "902"
+                    StartStageHandler(qb, sb).handle(m)
+                else:
+                    m2 = SignalStage(execution_id=wf.id, stage_id=j.id, signal_name="go", signal_data={"v": 1}, persistent=True, created_at=_CREATED)
+                    m2.message_id = "903"
+                    SignalStageHandler(qb, sb).handle(m2)
+
+            st = nest_at(w.conn(), k, run_b)
+            ma = StartStage(execution_id=wf.id, stage_id=j.id, created_at=_CREATED)
+            ma.message_id = "901"
+            StartStageHandler(w.queue, w.store).handle(ma)
+            w.conn().pre_statement = None
+            if not st["done"]:
+                run_b()  # k beyond A's last statement: B simply runs after A
+            row = row_of(w, "stage_executions", j.id)
+            tasks = [r for r in w.table("task_executions") if r["stage_id"] == j.id]
+            start_tasks = [d for d in _msgs(w, "StartTask") if d.get("stage_id") == j.id]
+            restart = _msgs(w, "StartStage", j.id)
+            with hx.native():
+                P.reached((join.name, other, built, st["at"], row["status"], len(start_tasks)))
+                info = {"join": join.name, "other_worker": ["duplicate StartStage", "persistent SignalStage"][other], "tasks_built_at_plan_time": built,
+                        "preempted_before_statement": st["at"], "stage": row["status"], "tasks": len(tasks), "StartTask_messages": len(start_tasks), "StartStage_requeued": len(restart)}
+            tag = info["other_worker"].replace(" ", "_") + ("/built" if built else "")
+            if len(start_tasks) > 1 or len(tasks) > 1:
+                return P.fail("%s/race/stage_planned_twice/%s" % (prop, tag), info)
+            if row["status"] == "RUNNING" and len(start_tasks) == 1:
+                return True
+            if row["status"] == "NOT_STARTED" and len(restart) >= 1:
+                return True
+            return P.fail("%s/race/start_lost/%s/%s" % (prop, tag, row["status"]), info)
+        finally:
+            w.close()
+
+
+def start_vs_start_anywhere(join: int, v0: int, k: int) -> bool:
+    """
+    pre: 0 <= v0 <= 1000 and 1 <= k <= 60
+    post: _
+    """
+    return _nested_any(join, v0, k, 0, False, "start_vs_start_anywhere")
+
+
+def start_vs_start_anywhere_built(join: int, v0: int, k: int) -> bool:
+    """
+    pre: 0 <= v0 <= 1000 and 1 <= k <= 60
+    post: _
+    """
+    return _nested_any(join, v0, k, 0, True, "start_vs_start_anywhere_built")
+
+
 PLAN = [
     ("claim_two", "quick", 280),
+    ("start_vs_start_anywhere", "quick", 280),
+    ("start_vs_start_anywhere_built", "quick", 280),
     ("start_alone", "quick", 120),
     ("start_vs_start", "quick", 200),
     ("start_vs_upstream_completion", "quick", 200),
@@ -256,7 +348,7 @@ META = {
                   "src/stabilize/handlers/signal_stage.py:SignalStageHandler", "src/stabilize/handlers/complete_stage/split_logic.py:_update_join_tracking",
                   "src/stabilize/handlers/complete_stage/handler.py:CompleteStageHandler", "src/stabilize/handlers/start_stage/planner.py:_plan_stage"],
     "bounds": ["claim: two workers, 4 interleavings, durable status all 12, version symbolic in [0,1000]",
-               "handler race: join stage with two finished upstreams (AND / first-of / 1-of-2), the other worker's whole handler nested between A's read and A's first write of the stage; version symbolic"],
+               "handler race: join stage with two finished upstreams (AND / first-of / 1-of-2), tasks pre-defined or built at plan time; the other worker's whole handler runs before A's k-th statement for every k (one pre-emption at statement granularity, positions inside A's open write transaction excluded as SQLite would block B); version symbolic"],
     "stubs": ["SymDB instead of SQLite (validated differentially on every run)", "ids/clock stubs as everywhere"],
     "assumptions": ["statement-level interleavings other than 'B completely inside A's read-to-write window' are covered only by the thread-scheduler harness when present"],
 }
